@@ -10,7 +10,11 @@
 //! with the model (time, allocation) but are visible to the monitors.
 mod alloc;
 mod c01;
+mod c08;
 mod c16;
+mod c18;
+mod c19;
+mod recdesc;
 mod sim;
 mod simdemo;
 mod wirefmt;
@@ -33,6 +37,15 @@ pub fn exec_line(line: &str) -> Option<String> {
     }
     if op == "decode" {
         return c01::exec(op, &mut t);
+    }
+    if matches!(op, "rec-compare" | "tiebreak" | "probe-time" | "name-change" | "hostname-change" | "check-name" | "split-sub" | "escaped-labels") {
+        return c08::exec(op, &mut t);
+    }
+    if matches!(op, "if-match" | "select" | "resolve-addr" | "select-at" | "valid-ip" | "addrs-on-intf") {
+        return c18::exec(op, &mut t);
+    }
+    if op == "backoff" {
+        return c19::exec(op, &mut t);
     }
     None
 }
@@ -69,7 +82,10 @@ fn main() {
                 let mut emit = |line: String| lines.push(line);
                 match prop.as_str() {
                     "C01" => c01::generate(&mut rng, &tier, &mut emit),
+                    "C08" => c08::generate(&mut rng, &tier, &mut emit),
                     "C16" => c16::generate(&mut rng, &tier, &mut emit),
+                    "C18" => c18::generate(&mut rng, &tier, &mut emit),
+                    "C19" => c19::generate(&mut rng, &tier, &mut emit),
                     _ => {
                         eprintln!("unknown property {}", prop);
                         std::process::exit(2);
